@@ -23,9 +23,10 @@ import copy
 import itertools
 from typing import Any
 
-from detsim import gen, rng
+from detsim import env, gen, rng
 from detsim.observe import exc_token, us
 from detsim.runner import Discard
+from detsim.sched import caller_boundary
 
 PROP = "C15"
 LEVEL = "fault_enumeration"
@@ -53,7 +54,9 @@ ASSUMPTIONS = [
 
 def make_plan(seed: int, tier: str, index: int) -> dict[str, Any]:
     g = rng.stream(seed, "gen")
-    doc = gen.gen_doc(g, max_tracks=2, small=g.random() < 0.5)
+    # (a third of the charts have up to five instrument sections: what happens to the REST of a
+    # load after one section was rejected)
+    doc = gen.gen_doc(g, max_tracks=5 if index % 3 == 1 else 2, small=g.random() < 0.5)
     doc["unknown"] = []
     if index % 25 == 7:
         # a long tempo map (thresholds that small maps never reach); corruptions are sampled
@@ -273,6 +276,10 @@ def apply_corruption(doc: dict[str, Any], c: dict[str, Any],
 
 
 def _concurrent_queries(chart: Any, base_chart: Any, zf: int, probe_ticks: list[int], seed: int) -> str | None:
+    from detsim import simthreads as _st
+
+    if _st.ACTIVE is not None:
+        return None  # already inside a simulation (a tree whose library runs threads): not nested
     """Two reader threads query one chart whose last tempo is zero, under the deterministic
     scheduler: every query at or after the zero tempo raises ValueError, every other one returns
     what the uncorrupted chart returns."""
@@ -354,6 +361,30 @@ def _parse(text: str, chunk: int | None) -> Any:
 
 
 def execute(plan: dict[str, Any]) -> dict[str, Any]:
+    if not env.package_makes_threads():
+        return _execute_inner(plan)
+    # a tree whose library runs threads of its own: the whole sequence of loads and queries is
+    # ONE simulated caller, so that those threads are scheduled by the simulator (a warmer thread
+    # racing with a query, a helper thread that never lets a failing load return)
+    from detsim.sched import SimDeadlock, run_as_one_simulated_caller
+
+    try:
+        res, sched = run_as_one_simulated_caller(lambda: _execute_inner(plan), int(plan["seed"]), env.PKG_DIR,
+                                                 preempt_lines=not env.package_uses_locks_or_threads())
+    except SimDeadlock as e:
+        # under this schedule a load (or query) of the library never returns
+        return {"violations": [{"sig": "C15/deadlock/call-never-returns",
+                                "detail": f"{e} (a load or query of the library never returns; every "
+                                          "untrustworthy file must be REJECTED, every query answered or refused)"}],
+                "digest": rng.digest(["deadlock", str(e)]), "evals": 1, "nontrivial": []}
+    res["knobs"] = {**(res.get("knobs") or {}), "whole_run_as_one_simulated_caller": 1}
+    res["sim_steps"] = sched.global_step
+    res["switches"] = sched.switches
+    res["probes"] = {**(res.get("probes") or {}), **sched.probes}
+    return res
+
+
+def _execute_inner(plan: dict[str, Any]) -> dict[str, Any]:
     import hashlib
 
     from detsim import world
@@ -468,6 +499,7 @@ def execute(plan: dict[str, Any]) -> dict[str, Any]:
         except BaseException as e:  # noqa: BLE001
             err = e
         ev.update(f"{kind}:{'ok' if err is None else type(err).__name__};".encode())
+        caller_boundary()
         if (err is not None and label == "must-raise" and isinstance(err, ValueError)
                 and (ci_ + plan.get("retry_off", 0)) % plan.get("retry_mod", 3) == 0):
             # a caller that retries: the same untrustworthy file must be rejected again
@@ -524,6 +556,7 @@ def execute(plan: dict[str, Any]) -> dict[str, Any]:
             # query leaves behind in the process must not answer for the next chart); a chart
             # whose map is trustworthy and unchanged answers like the base chart
             for t in probe_ticks[:6] + probe_ticks[-2:]:
+                caller_boundary()
                 counters["queries"] += 1
                 try:
                     got_q: Any = us(be.timestamp_at_tick_no_optimize_return(t))
@@ -547,6 +580,7 @@ def execute(plan: dict[str, Any]) -> dict[str, Any]:
             zf = info["zero_from"]
             bbe = base_chart.sync_track.bpm_events
             for t in probe_ticks + [zf, zf + 1, zf + 100000]:
+                caller_boundary()
                 counters["queries"] += 1
                 try:
                     got_ts: Any = us(be.timestamp_at_tick_no_optimize_return(t))
